@@ -1500,7 +1500,10 @@ class C18(Check):
                                 known=kf)
                     continue
                 pv2 = PropertyValue(out)
-                ok2 = pv2.wellformed and pv2.length == 1 and pv2[0].type == 'URI' and pv2[0].uri == r
+                # the same character content (the property's clause): a stored value that ends in an escaped backslash is read
+                # back with the backslash unescaped (`a\\\\` -> `a\\`), which stands for the same characters
+                ok2 = pv2.wellformed and pv2.length == 1 and pv2[0].type == 'URI' and \
+                    self.stored_denote(pv2[0].uri) == self.stored_denote(r)
                 if ok2:
                     old = ps.apply(cu)
                     try:
